@@ -18,8 +18,8 @@ import (
 
 	"github.com/crossplane/crossplane-runtime/pkg/resource"
 
-	v1 "github.com/crossplane/crossplane/apis/apiextensions/v1"
 	fnv1 "github.com/crossplane/crossplane/apis/apiextensions/fn/proto/v1"
+	v1 "github.com/crossplane/crossplane/apis/apiextensions/v1"
 	"github.com/crossplane/crossplane/internal/controller/apiextensions/composite"
 	"github.com/crossplane/crossplane/internal/controller/apiextensions/composite/watch"
 	"github.com/crossplane/crossplane/internal/engine"
